@@ -101,6 +101,18 @@ def model_value(row, v):
     return [5, [[ord(c) for c in x] for x in v]]
 
 
+def same_value(row, a, b):
+    """equality of option values; a DRM selection is a mapping system -> locations ('all' re-expands in the repository's own order)"""
+    if a == b:
+        return True
+    if row['kind'] == 'KDrm' and isinstance(a, list) and isinstance(b, list):
+        try:
+            return dict(a) == dict(b) and len(a) == len(b)
+        except (TypeError, ValueError):
+            return False
+    return False
+
+
 def codec_suite(ctx):
     from dashlive.server.options.repository import OptionsRepository as R
     from dashlive.utils.objects import dict_to_cgi_params
@@ -143,7 +155,8 @@ def codec_suite(ctx):
                     err = None
                 except Exception as e:  # noqa
                     v2, err = None, '%s: %s' % (type(e).__name__, str(e)[:80])
-                if err or v2 != v:
+                same = not err and same_value(row, v2, v)
+                if err or not same:
                     ctx.violation('option %s=%r: the manifest holds %r, the %s URL carries %s, the media endpoint obtains %r%s'
                                   % (o.cgi_name, t, v, uname, qs, v2, ' (' + err + ')' if err else ''), inp,
                                   key=known_class(row, v))
@@ -206,7 +219,7 @@ def subset_suite(ctx):
                 continue
             for row in pick:
                 o = row['opt']
-                if o.cgi_name in params and get(back, o) != get(opts, o):
+                if o.cgi_name in params and not same_value(row, get(back, o), get(opts, o)):
                     ctx.violation('options %r: %s differs after the %s URL: %r -> %r' % (args, o.cgi_name, uname, get(opts, o), get(back, o)),
                                   {'args': args, 'use': uname}, key=known_class(row, get(opts, o)))
 
